@@ -59,6 +59,11 @@ def run(chk):
         N = rng.randint(2, 12) if rng.random() < 0.7 else rng.randint(13, 60)
         xs = gen.sub_collection(rng, pool, N) if rng.random() < 0.6 else gen.repertoire(rng, N, minlen=5, maxlen=10, allow_empty=False)
         ys = gen.sub_collection(rng, pool, rng.randint(1, 10)) if rng.random() < 0.4 else None
+        if t % 6 == 5:
+            # strings are compared as written: mixed case, gap / stop symbols, blanks and punctuation are ordinary characters
+            odd = gen.sub_collection(rng, gen.all_strings("aA-* ", 3), min(N, 14))
+            xs = odd
+            ys = gen.sub_collection(rng, gen.all_strings("aA-*", 3), rng.randint(1, 8)) if ys is not None else None
         edges = rng.choice(edge_sets)
         which = rng.choice(["default", "lev", "wlev", "const"])
         if which in ("default", "lev"):
